@@ -25,7 +25,7 @@ ASSUMPTIONS = [
     "'best' = minimum for min-type and maximum for max-type measures, as the statement says",
 ]
 GATES = {
-    "constant_ambiguity_volume": 1, "volume_spanning_two_blocks_of_100": 2, "risk_on_a_volume_spanning_two_blocks_of_100": 1, "ambiguity_differs_on_less_than_1_percent_of_the_pixels": 1, "threshold_1": 1, "best_at_first_or_last_disparity": 1,
+    "constant_ambiguity_volume": 1, "volume_scaled_by_2_to_the_minus_30_compared": 3, "volume_spanning_two_blocks_of_100": 2, "risk_on_a_volume_spanning_two_blocks_of_100": 1, "ambiguity_differs_on_less_than_1_percent_of_the_pixels": 1, "threshold_1": 1, "best_at_first_or_last_disparity": 1,
     "two_steps_same_method_different_suffix": 1, "same_configuration_run_twice": 3, "confidence_step_whose_suffix_contains_a_dot": 1, "max_type_volume": 3, "pipelines_compared_with_and_without": 5,
     "regularisation_quantile_1": 1, "regularised_interval_bounds_after_ambiguity": 1, "regularisation_kernel_size_1": 1, "pixels_judged": 20000,
 }
@@ -261,6 +261,17 @@ def run_case(case, ctx):
     step = cvc.AbstractCostVolumeConfidence(**p)
     _, cv_after = step.confidence_prediction(None, img, img, cv)
     judge_step(ctx, case, desc, method, step.cfg, sfx, before, cv_after, img)
+    if method in ("ambiguity", "risk") and case["i"] % 3 == 2 and np.isfinite(costs).any():
+        # the definitions only use costs normalised by their global range: the same volume scaled by 2^-30 (an exact operation
+        # in float32) must give the same bands, bit for bit
+        cv_s = gen.deep_copy_ds(before)
+        cv_s["cost_volume"].data[:] = before["cost_volume"].data * np.float32(2.0 ** -30)
+        _, cv_s_after = cvc.AbstractCostVolumeConfidence(**p).confidence_prediction(None, img, img, cv_s)
+        ctx.gate("volume_scaled_by_2_to_the_minus_30_compared")
+        a_, b_ = cv_after["confidence_measure"].data, cv_s_after["confidence_measure"].data
+        if a_.shape != b_.shape or not gen.same(a_, b_):
+            ctx.violation("bands-depend-on-the-scale-of-the-costs", f"{method}: {gen.first_diffs(a_, b_, 3) if a_.shape == b_.shape else 'shapes differ'} "
+                          "(a = costs as given, b = costs times 2^-30)", case, situation=method, desc=desc)
     nb = cv_after["confidence_measure"].data[:, :, -1] if "confidence_measure" in cv_after else np.zeros((1, 1))
     ctx.case([method, p, tm, [H, W, D], nan_kind, floaty], nontrivial=bool(np.nanmax(nb) > np.nanmin(nb)) if np.isfinite(nb).any() else False)
     if ctx.evaluations <= 2:
